@@ -33,6 +33,10 @@ pub struct Case {
     /// leave this variable of f undefined (rejection case: unknown variable id); 0 = none
     #[serde(default)]
     pub undefined_var: u64,
+    /// 0: constraints listed as [7, 3, (9)]; 1: a further constraint 12 first and the list in
+    /// descending id order [12, (9), 7, 3] (the constraint list is a set, not a sorted sequence)
+    #[serde(default)]
+    pub con_layout: u8,
 }
 
 const CID: u64 = 3;
@@ -121,13 +125,27 @@ fn build(case: &Case) -> InstRep {
         sense: SENSE_MIN,
         objective: Some(FnRep::Lin { terms: vec![(case.vars[0].0, 1.0)], c: 0.0 }),
         vars,
-        constraints: vec![
-            ConRep::new(OTHER_CID, EQ_ZERO, Some(FnRep::Lin { terms: vec![(case.vars[0].0, 1.0)], c: -1.0 })).with_meta("other"),
-            ConRep::new(CID, case.equality, Some(f)).with_meta("target"),
-        ]
-        .into_iter()
-        .chain(if case.second { Some(ConRep::new(SECOND_CID, LE_ZERO, Some(FnRep::Lin { terms: vec![(case.vars[0].0, 1.0)], c: -1.0 }))) } else { None })
-        .collect(),
+        constraints: {
+            let other = ConRep::new(OTHER_CID, EQ_ZERO, Some(FnRep::Lin { terms: vec![(case.vars[0].0, 1.0)], c: -1.0 })).with_meta("other");
+            let target = ConRep::new(CID, case.equality, Some(f)).with_meta("target");
+            let second = ConRep::new(SECOND_CID, LE_ZERO, Some(FnRep::Lin { terms: vec![(case.vars[0].0, 1.0)], c: -1.0 }));
+            let mut v = vec![];
+            if case.con_layout == 1 {
+                v.push(ConRep::new(12, LE_ZERO, Some(FnRep::Lin { terms: vec![(case.vars[0].0, -1.0)], c: -5.0 })));
+                if case.second {
+                    v.push(second);
+                }
+                v.push(other);
+                v.push(target);
+            } else {
+                v.push(other);
+                v.push(target);
+                if case.second {
+                    v.push(second);
+                }
+            }
+            v
+        },
         ..Default::default()
     }
 }
@@ -227,7 +245,8 @@ pub fn check_case(l: &mut Local, case: &Case) {
     let sig0 = case.method.as_str();
     let pts = lattice(&case.vars);
     let f_exact = exact_poly(case);
-    let f_terms = terms_of(&before.constraints[1].function.clone().unwrap()).unwrap();
+    let tpos = before.constraints.iter().position(|c| c.id == CID).expect("ENGINE: target constraint");
+    let f_terms = terms_of(&before.constraints[tpos].function.clone().unwrap()).unwrap();
     let sat: Vec<bool> = pts.iter().map(|x| eval_f64(&f_terms, x).unwrap() < TOL).collect();
     // all alphabet values are multiples of 1/12: decisions are far from the tolerance
     for x in &pts {
@@ -341,10 +360,12 @@ pub fn check_case(l: &mut Local, case: &Case) {
                     );
                 }
                 let rc = msg.removed_constraints.iter().find_map(|r| r.constraint.as_ref().filter(|c| c.id == CID)).unwrap();
-                if *rc != before.constraints[1] {
+                if *rc != before.constraints[tpos] {
                     l.violation(&format!("{sig0}/moved-constraint-changed"), || json!(case), "the constraint moved to removed constraints is not the original one".into());
                 }
-                if msg.constraints.iter().any(|c| c.id == CID) || msg.decision_variables != before.decision_variables || msg.constraints.first() != before.constraints.first() {
+                let rest_now: Vec<&v1::Constraint> = msg.constraints.iter().collect();
+                let rest_before: Vec<&v1::Constraint> = before.constraints.iter().filter(|c| c.id != CID).collect();
+                if msg.constraints.iter().any(|c| c.id == CID) || msg.decision_variables != before.decision_variables || rest_now != rest_before {
                     l.violation(&format!("{sig0}/moved-but-instance-otherwise-changed"), || json!(case), "instance changed beyond moving the constraint".into());
                 }
                 if case.method == "add_slack" && ret.is_some() {
@@ -374,11 +395,10 @@ pub fn check_case(l: &mut Local, case: &Case) {
             if case.method == "add_slack" && sb.1 != case.param as f64 {
                 l.violation("add_slack/slack-bound", || json!(case), format!("slack bound {sb:?}, expected [0, {}]", case.param));
             }
-            let n_cons = if case.second { 3 } else { 2 };
-            if msg.constraints.len() != n_cons || msg.constraints[0] != before.constraints[0] || (case.second && msg.constraints[2] != before.constraints[2]) {
+            if msg.constraints.len() != before.constraints.len() || msg.constraints.iter().zip(&before.constraints).any(|(a, b)| b.id != CID && a != b) {
                 return l.violation(&format!("{sig0}/other-constraint-changed"), || json!(case), "other constraints changed".into());
             }
-            let nc = &msg.constraints[1];
+            let nc = &msg.constraints[tpos];
             let want_eq = if case.method == "convert" { EQ_ZERO } else { LE_ZERO };
             if nc.id != CID || nc.equality != want_eq {
                 l.violation(&format!("{sig0}/constraint-id-or-equality"), || json!(case), format!("constraint id {} equality {}, expected id {CID} equality {want_eq}", nc.id, nc.equality));
@@ -572,6 +592,7 @@ pub fn run(ctx: &Ctx) -> Finish {
                             continuous_var: 0,
                             second: false,
                             undefined_var: 0,
+                            con_layout: ((bi + i) % 2) as u8,
                         };
                         if method == "convert" && (bi + i) % 4 == 1 {
                             let mut c2 = case.clone();
